@@ -1,6 +1,8 @@
 package harness
 
 import (
+	"asherahverif/shim/vclock"
+
 	ae "github.com/godaddy/asherah/go/appencryption"
 	"strconv"
 
@@ -344,6 +346,8 @@ func kConfigs() []*KConfig {
 		{Name: "K5a-sk-only", Spec: SpecSKOnly, Alpha: quickA},
 		{Name: "K5b-ik-only", Spec: SpecIKOnly, Alpha: quickA},
 		{Name: "K6-shared-lru-2", Spec: SpecShared("lru", 2), Alpha: quickA},
+		// different capacities for the two key caches: the shared IK cache holds both partitions, the SK cache one key
+		{Name: "K8-shared-ik2-sk1", Spec: PolicySpec{Name: "shared-ik-lru-2-sk-lru-1", CacheSK: true, CacheIK: true, SharedIK: true, IKPolicy: "lru", IKSize: 2, SKPolicy: "lru", SKSize: 1}, Alpha: quickA},
 		{Name: "K7-narrow-deep", Spec: SpecDefault, Alpha: KAlphabet{Ticks: []int{R + 1, 2*R + 1, E - P - 1}, Narrow: true}},
 		{Name: "K7s-narrow-deep-shared", Spec: SpecShared("lru", 2), Alpha: KAlphabet{Ticks: []int{R + 1, 2*R + 1, E - P - 1}, Narrow: true}},
 	}
@@ -578,6 +582,16 @@ func kProbe(cfg *KConfig, hist []string) kProbeResult {
 		// X ; Y ; X with Y an encrypt / a decrypt of the newest or of the oldest record of the same partition
 		// (only with unbounded key caches: in a bounded one Y may legitimately evict the key X uses)
 		if cfg.Spec.IKSize != 0 || cfg.Spec.SKSize != 0 {
+			// a bounded shared IK cache that holds the whole working set (both partitions): alternating between the
+			// partitions' newest keys must stay free of calls as well (Y = an encrypt / newest-record decrypt of the OTHER partition)
+			if cfg.Spec.SharedIK && cfg.Spec.IKSize >= 2 {
+				for _, y := range enabled {
+					f := strings.Split(y, ":")
+					if len(f) >= 4 && f[1] == "1" && f[2] == "L" && f[3] != strings.Split(x, ":")[3] && (f[0] == "enc" || (f[0] == "dec" && strings.HasSuffix(y, ":new"))) {
+						kProbeAlternate(cfg, hist, x, y, &out)
+					}
+				}
+			}
 			continue
 		}
 		part := strings.Split(x, ":")[3]
@@ -609,8 +623,14 @@ func kProbeRun(cfg *KConfig, hist, probe []string, gap int, out *kProbeResult) {
 		}
 		msFromFirstEnd := len(w.ms.Calls)
 		for _, op := range probe[1 : len(probe)-1] {
+			before := len(w.ms.Calls)
 			if mid := w.apply(op); mid.Err != nil || mid.Panic != "" {
 				out.Counters["probe-middle-op-failed"]++
+				return
+			}
+			if gap == 0 && cfg.Spec.IKSize != 0 && len(w.ms.Calls) > before {
+				// bounded caches: a middle operation that loaded or created keys may legitimately evict the key X uses
+				out.Counters["C20.exempt:middle-op-loaded-keys"]++
 				return
 			}
 		}
@@ -748,6 +768,69 @@ func kProbeRun(cfg *KConfig, hist, probe []string, gap int, out *kProbeResult) {
 	}
 }
 
+// kProbeAlternate is the probe for bounded shared caches: X; Y; X; Y; X; Y at one instant, X and Y on different
+// partitions. The first round may load keys, the second may still miss once (older generations that were cached before
+// the probe can push a key out while they are being replaced); after the second round the two most recently used
+// entries of an LRU cache of capacity >= 2 are exactly the keys X and Y use, so the third round makes no call.
+func kProbeAlternate(cfg *KConfig, hist []string, x, y string, out *kProbeResult) {
+	resetGlobals()
+	probe := []string{x, y, x, y, x, y}
+	fail := func(sig, format string, a ...interface{}) {
+		out.Viols = append(out.Viols, kViol{Prop: "C20", Sig: sig, Msg: fmt.Sprintf(format, a...) + fmt.Sprintf(" [history %v + probe %v]", hist, probe)})
+	}
+	if cfg.Spec.IKPolicy != "lru" || cfg.Spec.IKSize < 2 {
+		return // the retention argument is LRU's
+	}
+	xr := vsched.Run(vsched.RunOptions{MaxSteps: 2000000}, func() {
+		vsched.BeginQuiet()
+		w := newKWorld(cfg.Spec)
+		vsched.Quiesce()
+		for _, op := range hist {
+			w.apply(op)
+		}
+		var last [2]*kStep
+		for i, op := range probe[:4] {
+			st := w.apply(op)
+			if st.Err != nil || st.Panic != "" || st.Rec == nil {
+				out.Counters["probe-first-op-failed"]++
+				return
+			}
+			last[i%2] = st
+		}
+		now := vclock.Unix()
+		for _, st := range last {
+			id := st.Rec.DRR.Key.ParentKeyMeta.ID
+			ikRow := w.row(id, st.Rec.IKCreated)
+			if ikRow == nil || ikRow.Rec.ParentKeyMeta == nil {
+				out.Counters["C20.exempt:ik-row-missing"]++
+				return
+			}
+			skRow := w.row(ikRow.Rec.ParentKeyMeta.ID, ikRow.Rec.ParentKeyMeta.Created)
+			if st.Kind == "enc" && (ikRow.Rec.Revoked || now > ikRow.Created+E || skRow == nil || skRow.Rec.Revoked || now > skRow.Created+E) {
+				out.Counters["C20.exempt:ik-invalid"]++
+				return
+			}
+		}
+		out.Counters["C20.alternate-probe"]++
+		for i, op := range probe[4:] {
+			msFrom, kmsFrom := len(w.ms.Calls), len(w.kms.Calls)
+			st := w.apply(op)
+			if st.Err != nil || st.Panic != "" {
+				fail("repeat-failed", "repeating %s after it succeeded failed: %v %s", op, st.Err, st.Panic)
+				return
+			}
+			if ms, kms := w.ms.Calls[msFrom:], w.kms.Calls[kmsFrom:]; len(ms) != 0 || len(kms) != 0 {
+				fail(fmt.Sprintf("cache-miss:alternating:%s", st.Kind), "operation %d of the probe (%s for the third time at the same instant; the shared intermediate-key cache is configured to hold %d keys, the two partitions use 2) performed %d metastore and %d KMS calls, want 0: %s",
+					i+5, op, cfg.Spec.IKSize, len(ms), len(kms), callList(ms, kms))
+				return
+			}
+		}
+	})
+	if xr.PanicVal != nil || xr.Deadlock != "" || xr.Horizon {
+		fail("probe-crash", "probe execution aborted: panic=%v deadlock=%s", xr.PanicVal, xr.Deadlock)
+	}
+}
+
 func gapClass(g int) int {
 	if g == 0 {
 		return 0
@@ -776,9 +859,9 @@ func CheckC20(r *Report) {
 		name  string
 		depth int
 	}
-	plan := []pc{{"K1-default", 3}, {"K3a-shared-lru-1", 3}, {"K4-sessions-slru-1", 3}, {"K2-nocache", 2}, {"K5a-sk-only", 3}}
+	plan := []pc{{"K1-default", 3}, {"K3a-shared-lru-1", 3}, {"K4-sessions-slru-1", 3}, {"K2-nocache", 2}, {"K5a-sk-only", 3}, {"K8-shared-ik2-sk1", 3}}
 	if r.Thorough() {
-		plan = []pc{{"K1-default", 4}, {"K3a-shared-lru-1", 4}, {"K3c-shared-slru-1", 4}, {"K4-sessions-slru-1", 4}, {"K6-shared-lru-2", 4}, {"K2-nocache", 3}, {"K5a-sk-only", 4}, {"K5b-ik-only", 3}, {"K1-default-full", 3}}
+		plan = []pc{{"K1-default", 4}, {"K3a-shared-lru-1", 4}, {"K3c-shared-slru-1", 4}, {"K4-sessions-slru-1", 4}, {"K6-shared-lru-2", 4}, {"K2-nocache", 3}, {"K5a-sk-only", 4}, {"K5b-ik-only", 3}, {"K1-default-full", 3}, {"K8-shared-ik2-sk1", 4}}
 	}
 	for _, p := range plan {
 		if !r.TimeLeft() {
